@@ -55,6 +55,8 @@ def do_eval(ids):
             rc, o = sh(["git", "apply", "--3way", patch], cwd=REPO)
             if rc != 0:
                 res["apply"] = "does not apply: " + o.strip()[-300:]
+                sh(["git", "reset", "-q", "HEAD", "--", "."], cwd=REPO)
+                sh(["git", "checkout", "--", "."], cwd=REPO)
                 sh("git checkout -- . && git reset -q", cwd=REPO)
                 json.dump(res, open(os.path.join(d, "result.json"), "w"), indent=1)
                 print(sid, res)
